@@ -172,7 +172,7 @@ def replay(ov, prop, item, extra, timeout=900):
     h = item["harness"]
     short = h.rsplit("::", 1)[-1]
     uniq = "__".join(h.split("::")[-3:]) if h.count("::") >= 2 else short
-    outdir = os.path.join(VERIF, "replays", prop)
+    outdir = os.path.join(os.environ.get("VERIF_REPLAY_DIR") or os.path.join(VERIF, "replays"), prop)
     os.makedirs(outdir, exist_ok=True)
     path = os.path.join(outdir, uniq + ".rs")
     cmd = ["cargo", "kani", "--harness", h, "--exact", "-Z", "concrete-playback", "--concrete-playback=inplace"] + extra
@@ -228,7 +228,7 @@ def run_check(prop, tier, cfg):
     t0 = time.time()
     seed = int(os.environ.get("VERIF_SEED", "0") or 0)
     known = load_known_findings()
-    ev_path = os.path.join(VERIF, "evidence", f"{prop}.json")
+    ev_path = os.path.join(os.environ.get("VERIF_EVIDENCE_DIR") or os.path.join(VERIF, "evidence"), f"{prop}.json")
     os.makedirs(os.path.dirname(ev_path), exist_ok=True)
     if os.path.exists(ev_path):
         os.remove(ev_path)
@@ -254,7 +254,7 @@ def run_check(prop, tier, cfg):
             tail = open(log_path).read()[-4000:]
             log(tail)
             log(f"INCONCLUSIVE property={prop}: cargo kani produced no results (rc={rc})")
-            keep = os.path.join(VERIF, "evidence", f"{prop}.kani.log")
+            keep = os.path.join(os.path.dirname(ev_path), f"{prop}.kani.log")
             shutil.copy(log_path, keep)
             return 2
         data = json.load(open(json_out))
